@@ -106,6 +106,24 @@ def gen(chk, tier):
                 add(k, "sm4.crypt", h="c2", dec=False, src=blk, inplace=False)
                 add(k, "sm4.crypt", h="c1", dec=False, src=blk, inplace=False)
                 add(k, "sm4.crypt", h="c2", dec=True, src=blk, inplace=False)
+    # the caller's key BUFFER reused: NewCipher(buf) with k1, then buf is overwritten with k2 (or wiped) and
+    # handed to NewCipher again - the second cipher is k2's and the first stays k1's (nothing may remember
+    # the slice instead of its contents), for 1..3 reuses and both paths
+    for _ in range(3 if tier == "quick" else 40):
+        for asm in (True, False):
+            k = scenario("keybuffer_reused")
+            k1 = rb(rng, 16)
+            add(k, "sm4.newcipher", h="c1", key=k1, asm=asm)
+            blk = rb(rng, 16)
+            add(k, "sm4.crypt", h="c1", dec=False, src=blk, inplace=False)
+            prev = "c1"
+            for j, kk in enumerate([rb(rng, 16), [0] * 16, k1][: rng.choice([1, 2, 3])]):
+                h = "d%d" % j
+                add(k, "sm4.newcipher", h=h, key=kk, asm=asm, keyof=prev)
+                add(k, "sm4.crypt", h=h, dec=False, src=blk, inplace=False)
+                add(k, "sm4.crypt", h=h, dec=True, src=blk, inplace=True)
+                add(k, "sm4.crypt", h="c1", dec=False, src=blk, inplace=False)
+                prev = h
     # key length rule
     for L in list(range(0, 41)):
         k = scenario("keylen_%s" % ("16" if L == 16 else "bad"))
